@@ -34,6 +34,9 @@ const void *g_wit_obj;	/* the witness line (real heap string) of a line-table ha
 const void *g_real1, *g_real2;	/* other real objects a line-table harness passes as sources */
 #define SAMEOBJ(p, q)	((q) != 0 && __CPROVER_same_object((p), (q)))
 #define OPAQUE(p)	(g_opaque_on && !SAMEOBJ(p, g_wit_obj) && !SAMEOBJ(p, g_real1) && !SAMEOBJ(p, g_real2))
+#ifdef MEMCPY_HOOK
+void memcpy_hook(void *dst, const void *src, size_t n);	/* ghost bookkeeping of a TU */
+#endif
 #ifdef STRLEN_HOOK
 long strlen_hook(const char *s);	/* ghost-known length of s, or -1 */
 #endif
@@ -72,6 +75,9 @@ void *memcpy(void *dst, const void *src, size_t n)
 	if (n == 0)
 		return dst;
 	__CPROVER_assert(__CPROVER_w_ok(dst, n), "memcpy: destination writable for n bytes");
+#ifdef MEMCPY_HOOK
+	memcpy_hook(dst, src, n);
+#endif
 	if (OPAQUE(src)) {
 		bulk_copy_model(dst, src, n, 1);
 		return dst;
